@@ -302,9 +302,10 @@ def lex_initial(s: Scanner) -> None:
     elif s.accept("="):
         s.emit(TokenType.EQUAL)
     elif s.accept_prefix("/*"):
+        position = s.get_position()
         while not s.accept_prefix("*/"):
             if s.next() is None:
-                raise ScannerException("Unterminated Comment", s.get_position())
+                raise ScannerException("Unterminated Comment", position)
         s.emit(TokenType.COMMENT)
     else:
         if s.next() is not None:
